@@ -50,8 +50,6 @@ cfg("Gossip_out_quick.cfg", "sending side, timed: 3 messages (two of height 1, o
     "rebroadcast, a failing attempt, cancel", {}, OUT_INV, OUT_ACT)
 cfg("Gossip_out_close.cfg", "sending side, timed: the topic is closed under the loop, contexts end by cancel or deadline",
     dict(NCallers=1, AllowClose="TRUE", AllowDeadline="TRUE", MaxTicks=1), OUT_INV, OUT_ACT)
-cfg("Gossip_out_thorough.cfg", "sending side, timed, larger: 4 messages, channel of 2, two callers, two failing attempts",
-    dict(BMsgs="B4", QCap=2, MaxFail=2, MaxTime=9), OUT_INV, OUT_ACT)
 cfg("Gossip_out_norebro.cfg", "sending side as the vote broadcaster is built (no rebroadcast strategy)",
     dict(WithRebro="FALSE", BMsgs="B4", QCap=2, MaxFail=2), OUT_INV, OUT_ACT)
 cfg("Gossip_in_quick.cfg", "receiving side: subscription buffer 1, output channels 1, a junk message, cancel / deadline",
